@@ -38,6 +38,12 @@ class Sem:
             return ("struct", [(f, self.fresh(ft, hint)) for f, ft in T["fields"]])
         if t == "Unit":
             return ("unit",)
+        if t in ("List", "Set"):
+            # a list / set value of symbolic length 0..2 with symbolic elements of the element type's shape
+            n = "%s%d_len" % (hint, self.n)
+            self.decls.append("(declare-const %s Int)" % n)
+            self.decls.append("(assert (and (<= 0 %s) (<= %s 2)))" % (n, n))
+            return ("seq", t, n, [self.fresh(T["of"], hint), self.fresh(T["of"], hint)])
         raise ValueError("no symbolic values for type " + t)
 
     def convert(self, A, B, term):
@@ -96,6 +102,18 @@ class Sem:
             return land([self.member(ft, vd[f], strict) for f, ft in T["fields"]])
         if t == "Unit":
             return "true" if val[0] == "unit" else "false"
+        if t in ("List", "Set"):
+            if val[0] != "seq" or val[1] != t:
+                return "false"
+            n = val[2]
+            sizes = lor(["(and (<= %s %s) (<= %s %s))" % (lo, n, n, hi) for lo, hi in T.get("size", [])])
+            elems = [lor(["(<= %s %d)" % (n, i), self.member(T["of"], e, strict)]) for i, e in enumerate(val[3])]
+            distinct = []
+            if t == "Set":   # the two elements of a set value differ (scalars only)
+                a, b = val[3]
+                if a[0] == "s" and b[0] == "s":
+                    distinct = [lor(["(<= %s 1)" % n, lnot("(= %s %s)" % (a[2], b[2]))])]
+            return land([sizes] + elems + distinct)
         raise ValueError("member: unsupported type " + t)
 
     def names(self, val):
@@ -105,6 +123,8 @@ class Sem:
             return [val[1]] + self.names(val[2])
         if val[0] == "struct":
             return [n for _, v in val[1] for n in self.names(v)]
+        if val[0] == "seq":
+            return [val[2]] + [n for v in val[3] for n in self.names(v)]
         return []
 
     def to_json(self, val, model):
@@ -118,4 +138,7 @@ class Sem:
             return {"t": "Optional", "v": self.to_json(val[2], model)}
         if val[0] == "struct":
             return {"t": "Struct", "fields": [[f, self.to_json(v, model)] for f, v in val[1]]}
+        if val[0] == "seq":
+            k = int(model[val[2]])
+            return {"t": val[1], "v": [self.to_json(v, model) for v in val[3][:k]]}
         return {"t": "Unit"}
